@@ -21,6 +21,7 @@ type Case struct {
 	Amps []int64 `json:"amps"`
 	Pad  int     `json:"pad,omitempty"` // the amplitudes are repeated cyclically up to this buffer length
 	Fix  int     `json:"fix,omitempty"` // source construction order, see convtab.Entry.NewBlockFix
+	Ch   int     `json:"ch,omitempty"`  // channel count of the buffers (0 = 1): the values are interleaved over several channels
 }
 
 var Pairs = convtab.Select("SignedAsFloat", "UnsignedAsFloat")
@@ -60,12 +61,12 @@ type Runner struct {
 	KnownEx *Case
 }
 
-func NewRunner(e *convtab.Entry, env kit.Env) *Runner { return NewRunnerFix(e, env, 0) }
+func NewRunner(e *convtab.Entry, env kit.Env) *Runner { return NewRunnerFix(e, env, 0, 1) }
 
-func NewRunnerFix(e *convtab.Entry, env kit.Env, fix int) *Runner {
-	r := &Runner{E: e, env: env, blk: e.NewBlockFix(fix)}
+func NewRunnerFix(e *convtab.Entry, env kit.Env, fix, ch int) *Runner {
+	r := &Runner{E: e, env: env, blk: e.NewBlockShape(fix, ch)}
 	r.back = convtab.Lookup(e.D.Name, e.S.Name) // FloatAsSigned / FloatAsUnsigned back into S
-	r.bblk = r.back.NewBlockFix(fix)
+	r.bblk = r.back.NewBlockShape(fix, ch)
 	return r
 }
 
@@ -153,7 +154,7 @@ func Check(c *Case) (res kit.Result) {
 	}
 	d := e.S.Bits
 	lo, hi := numkit.Lo(d), numkit.Hi(d)
-	if c.Pad < 0 || c.Pad > 1<<20 || c.Fix < 0 || c.Fix > 2 {
+	if c.Pad < 0 || c.Pad > 1<<20 || c.Fix < 0 || c.Fix > 2 || c.Ch < 0 || c.Ch > 64 {
 		return
 	}
 	in := kit.PadInts(append([]int64{lo, 0, hi}, c.Amps...), c.Pad)
@@ -166,7 +167,7 @@ func Check(c *Case) (res kit.Result) {
 		}
 	}
 	sort.Slice(in, func(i, j int) bool { return in[i] < in[j] })
-	r := NewRunnerFix(e, kit.GetEnv(Property), c.Fix)
+	r := NewRunnerFix(e, kit.GetEnv(Property), c.Fix, c.Ch)
 	var msg string
 	if p, v := kit.Try(func() { msg = r.Run(in) }); p {
 		res.Failf("%s panicked: %v", e, v)
@@ -200,6 +201,7 @@ func FP(c *Case) uint64 {
 	h.Int(len(c.Amps))
 	h.Int(c.Pad)
 	h.Int(c.Fix)
+	h.Int(c.Ch)
 	for _, a := range c.Amps {
 		h.U64(uint64(a))
 	}
@@ -216,6 +218,7 @@ func Gen(t *rapid.T) *Case {
 	c := &Case{S: e.S.Name, D: e.D.Name}
 	c.Pad = kit.GenPad(t)
 	c.Fix = rapid.IntRange(0, 2).Draw(t, "fix")
+	c.Ch = rapid.SampledFrom([]int{1, 1, 2, 3, 5, 8}).Draw(t, "ch")
 	n := rapid.IntRange(1, 24).Draw(t, "n")
 	base := kit.GenAmp(t, e.S.Bits, BAmps[e.S.Bits])
 	for i := 0; i < n; i++ {
